@@ -10,7 +10,10 @@
  * Native replay is not available for this family (the registry uses __CPROVER_same_object / __CPROVER_POINTER_OFFSET).
  * Group prefixes: v_ static_vector<Tracked,N> · o_ optional<Tracked> · w_ variant<int,Tracked,Tracked2> · x_ expected<Tracked,Tracked2> ·
  * i_ inplace_vector · s_ static_set · f_ flat_set · k_ stack · m_ uninitialized_x/construct_at/destroy_x · n_ inplace_function ·
- * mo_/co_ static_vector of a move-only / copy-only element.  pair/tuple are NOT covered: their element lifetimes are compiler-generated
+ * mo_/co_ static_vector of a move-only / copy-only element · viol_* C05 violation harnesses of the non-trivial instantiations (handler reached,
+ * owner + argument + ghost registry unmodified at the handler) · h_/ho_/hw_/hx_ static_vector / optional / variant / expected of vf::Handle (self-move
+ * loses the payload, the destructor releases it: C01 / C07 value oracles, arguments aliasing the container's own element) · ha_ the element-moving
+ * algorithms over Handles · ik_alias aliasing arguments of inplace_vector / stack.  pair/tuple are NOT covered: their element lifetimes are compiler-generated
  * member construction/destruction which cxx2c itself synthesises (that would verify the extractor, not tetl).
  * kind=F groups carry unwind=7 only for the constant-bound loops of the ghost registry (NOUT, NSLOT); the library code under test is
  * loop-free there.  etl::rotate is recursive: its recursion depth is bounded by unwindset (<= N), unwinding assertions stay on.
@@ -19,7 +22,11 @@
 #define N VF_N
 #define CAT_(a, b) a##b
 #define CAT(a, b) CAT_(a, b)
+/* C05: what the assertion handler checks when a violation harness expects it (defined below, after the registry) */
+static void vf_handler_check(void);
+#define VF_HANDLER_CHECK() vf_handler_check()
 #include "vf_handler.h"
+typedef signed char id_type;
 
 /* ---- ghost liveness registry ------------------------------------------------------------------------------------------ */
 #define NREG 3
@@ -50,9 +57,13 @@ static void vf_dtor(const void *p, int tag) { int r; int s = vf_slot_of(p, &r);
   if (s >= 0) { __CPROVER_assert(vf_live[r][s] == tag, "C03: destructor on dead storage / double destroy"); vf_live[r][s] = 0; return; }
   int i = vf_out_find(p, tag); __CPROVER_assert(i >= 0, "C03: destructor on a dead object outside the element storage / double destroy");
   if (i >= 0) { vf_out_tag[i] = 0; --outside_live; } }
+/* a member function (copy/move source, assignment target, comparison operand) on storage that holds no object reads an indeterminate
+ * value: the same condition is stated once for C03 and once for C02 (an assertion tagged Cxx counts for that property only) */
 static void vf_use(const void *p, int tag) { int r; int s = vf_slot_of(p, &r);
-  if (s >= 0) { __CPROVER_assert(vf_live[r][s] == tag, "C03: member function on dead storage"); return; }
-  __CPROVER_assert(vf_out_find(p, tag) >= 0, "C03: member function on a dead object outside the element storage"); }
+  if (s >= 0) { __CPROVER_assert(vf_live[r][s] == tag, "C03: member function on dead storage");
+    __CPROVER_assert(vf_live[r][s] == tag, "C02: an element member function reads storage that holds no object (never constructed / already destroyed)"); return; }
+  __CPROVER_assert(vf_out_find(p, tag) >= 0, "C03: member function on a dead object outside the element storage");
+  __CPROVER_assert(vf_out_find(p, tag) >= 0, "C02: an element member function reads an object outside the element storage that is not alive"); }
 void _ZN2vf6g_ctorEPKvi(void *p, int tag) { vf_ctor(p, tag); }
 void _ZN2vf6g_dtorEPKvi(void *p, int tag) { vf_dtor(p, tag); }
 void _ZN2vf5g_useEPKvi(void *p, int tag) { vf_use(p, tag); }
@@ -65,12 +76,39 @@ static _Bool vf_all_dead(int k) { for (int i = 0; i < NSLOT; ++i) if (vf_live[k]
 static void vf_region_live_prefix(int k, unsigned long n, int tag) { for (int i = 0; i < NSLOT; ++i) vf_live[k][i] = (unsigned long)i < n ? (unsigned char)tag : 0; }
 static _Bool vf_region_is_prefix(int k, unsigned long n, int tag) { for (int i = 0; i < NSLOT; ++i) if (vf_live[k][i] != ((unsigned long)i < n ? tag : 0)) return 0; return 1; }
 
+/* ---- C05 snapshot: when the handler runs for an expected violation, the owner (all bytes), the argument and the ghost registry
+ * (every slot state, the table of outside objects) are exactly what they were before the call: nothing constructed, destroyed, moved */
+#define SNAPMAX 8
+unsigned char vf_snap[SNAPMAX]; const unsigned char *vf_snap_of; unsigned long vf_snap_n;
+unsigned char vf_snap_live[NREG][NSLOT]; unsigned char vf_snap_out_tag[NOUT]; int vf_snap_outside;
+const id_type *vf_snap_arg_of; id_type vf_snap_arg;
+/* vf_snap_storage_only: a forwarding layer without a precondition of its own (flat_set::insert/emplace builds the key in a local before
+ * the container's check fires) may hold live temporaries and may have moved from an rvalue argument; the element storage is compared */
+_Bool vf_snap_storage_only;
+static _Bool vf_registry_unchanged(void) { _Bool same = vf_snap_storage_only || outside_live == vf_snap_outside;
+  for (int k = 0; k < NREG; ++k) for (int i = 0; i < NSLOT; ++i) same = same && vf_live[k][i] == vf_snap_live[k][i];
+  for (int i = 0; i < NOUT; ++i) same = same && (vf_snap_storage_only || vf_out_tag[i] == vf_snap_out_tag[i]);
+  return same; }
+static void vf_handler_check(void) {
+  if (vf_snap_of) { _Bool same = 1; for (int i = 0; i < SNAPMAX; ++i) if ((unsigned long)i < vf_snap_n) same = same && vf_snap_of[i] == vf_snap[i];
+    __CPROVER_assert(same, "C05: the object is unmodified (every byte) when the assertion handler runs"); }
+  if (vf_snap_arg_of) __CPROVER_assert(*vf_snap_arg_of == vf_snap_arg, "C05: the argument is unmodified (not moved from) when the assertion handler runs");
+  __CPROVER_assert(vf_registry_unchanged(), "C05: no element was constructed or destroyed before the assertion handler runs (ghost registry unmodified)"); }
+static void vf_expect(const void *obj, unsigned long n, const id_type *arg) { vf_expect_handler = 1; vf_snap_of = (const unsigned char *)obj; vf_snap_n = n;
+  __CPROVER_assert(n <= SNAPMAX, "snapshot buffer is large enough");
+  for (int i = 0; i < SNAPMAX; ++i) if (obj && (unsigned long)i < n) vf_snap[i] = vf_snap_of[i];
+  for (int k = 0; k < NREG; ++k) for (int i = 0; i < NSLOT; ++i) vf_snap_live[k][i] = vf_live[k][i];
+  for (int i = 0; i < NOUT; ++i) vf_snap_out_tag[i] = vf_out_tag[i];
+  vf_snap_outside = outside_live; vf_snap_arg_of = arg; if (arg) vf_snap_arg = *arg; }
+#define EXPECT_VIOLATION(o) vf_expect(&(o), sizeof (o), 0)
+#define EXPECT_VIOLATION_ARG(o, x) vf_expect(&(o), sizeof (o), &(x).id)
+#define EXPECT_VIOLATION_RAW() vf_expect(0, 0, 0)   /* construction of a new object: only the registry is compared */
+
 #define LEAKFREE(out0) VF_ASSERT(outside_live == (out0), "C03: no leaked temporary and no destroyed argument: the number of live objects outside the element storage is back to its entry value")
 
 /* ---- static_vector<Tracked,N> ----------------------------------------------------------------------------------------- */
 typedef struct vf_Tracked T;
 typedef struct CAT(etl_static_vector_vf_Tracked_, VF_N) V;
-typedef signed char id_type;
 typedef struct { unsigned long n; id_type a[N + 1]; } view_t;
 #define SZ(v) ((v).b0._size)
 #define ELP(v, i) ((T *)&(v).b0._data[i])
@@ -672,3 +710,359 @@ void h_co_erase_copy(void) { VF_INPUT(VC, s); own_vec_co(1, &s); VF_INPUT(VC, t)
   else if (which == 2) { own_vec_co(0, &t); __CPROVER_assume(f <= l && l <= os.n); TC *r = tvc_erase_range(&s, ELPC(s, f), ELPC(s, l)); VF_ASSERT(view_eq(view_of_co(&s), sp_erase(os, f, l)) && r == ELPC(s, f), "erase(first,last): n' = n-(l-f); suffix shifted down"); }
   else { own_vec_co(0, &t); __CPROVER_assume(f <= N); tvc_resize_x(&s, f, &x); VF_ASSERT(view_eq(view_of_co(&s), sp_resize(os, f, xid)), "resize(m,x): n' = m; common prefix kept; new slots are x"); }
   INVC(0, t); INVC(1, s); LEAKFREE(1); DESTROYC(1, s); INVC(0, t); DESTROYC(0, t); LEAKFREE(1); VF_REACH(); }
+
+/*@COMMON@*/
+/* ---- C05: every documented precondition of the NON-TRIVIAL instantiations (static_vector_non_trivial_storage, inplace_vector / stack /
+ * flat_set over it, optional / expected / variant of instrumented alternatives).  The call must reach the assertion handler on every path
+ * (VF_NORETURN_EXPECTED), and at the handler the owner (every byte), the argument and the ghost registry are unmodified: no element was
+ * constructed past the end, destroyed or moved from before the check.  The hook assertions (C03-tagged) count for C05 in these groups. */
+#define ARGM(x) VF_INPUT(TM, x); vf_out_add(&x, 4)
+
+/*@GROUP name=viol_v_grow_back props=C05,C02 kind=K unwind=10 unwindset=_ZN3etl6rotateIPN2vf7TrackedEEET_S4_S4_S4_:4 objbits=12@*/
+void h_viol_v_grow_back(void) { ARBV(0, v); ARG(x); VF_INPUT(unsigned char, op); VF_INPUT(unsigned long, c); __CPROVER_assume(op <= 5); id_type xid = x.id;
+  if (op <= 2) __CPROVER_assume(SZ(v) == N); else __CPROVER_assume(c > N);
+  EXPECT_VIOLATION_ARG(v, x);
+  if (op == 0) tv_push_back(&v, &x); else if (op == 1) tv_push_back_rv(&v, &x); else if (op == 2) tv_emplace_back(&v, xid);
+  else if (op == 3) tv_resize(&v, c); else if (op == 4) tv_resize_x(&v, c, &x); else tv_assign_n(&v, c, &x);
+  VF_NORETURN_EXPECTED(); }
+
+/*@GROUP name=viol_v_grow_ins props=C05,C02 kind=K unwind=10 unwindset=_ZN3etl6rotateIPN2vf7TrackedEEET_S4_S4_S4_:4 objbits=12 cost=2@*/
+void h_viol_v_grow_ins(void) { ARBV(0, v); ARG(x); VF_INPUT(unsigned char, op); VF_INPUT(unsigned char, p); __CPROVER_assume(op <= 2 && p <= SZ(v) && SZ(v) == N); id_type xid = x.id;
+  EXPECT_VIOLATION_ARG(v, x);
+  if (op == 0) tv_insert(&v, ELP(v, p), &x); else if (op == 1) tv_insert_rv(&v, ELP(v, p), &x); else tv_emplace(&v, ELP(v, p), xid);
+  VF_NORETURN_EXPECTED(); }
+
+/*@GROUP name=viol_v_grow_n props=C05,C02 kind=K unwind=10 unwindset=_ZN3etl6rotateIPN2vf7TrackedEEET_S4_S4_S4_:4 objbits=12 cost=2@*/
+void h_viol_v_grow_n(void) { /* insert(pos, c, x) with any count above the remaining room, up to SIZE_MAX */
+  ARBV(0, v); ARG(x); VF_INPUT(unsigned char, p); VF_INPUT(unsigned long, c); __CPROVER_assume(p <= SZ(v) && c > N - SZ(v));
+  VF_KNOWN(C05_insert_n_count_wraps, c > ~0UL - SZ(v));
+  EXPECT_VIOLATION_ARG(v, x); tv_insert_n(&v, ELP(v, p), c, &x);
+  VF_NORETURN_EXPECTED(); }
+
+/*@GROUP name=viol_v_grow_range props=C05,C02 kind=K unwind=10 unwindset=_ZN3etl6rotateIPN2vf7TrackedEEET_S4_S4_S4_:4 objbits=12@*/
+void h_viol_v_grow_range(void) { /* sized ranges that do not fit the remaining room / the capacity, reversed ranges, counts above the capacity in the constructors */
+  VF_INPUT(V, v); ARG(x); VF_INPUT(unsigned char, op); VF_INPUT(unsigned char, p); VF_INPUT(unsigned char, c); VF_INPUT(unsigned char, d); VF_INPUT(unsigned long, big);
+  VF_INPUT_ARR(T, src, N + 1); vf_region_set(1, src, sizeof(T), N); vf_region_live_prefix(1, N, 1);   /* src[N] is never an object: the handler must fire before it is read */
+  __CPROVER_assume(op <= 5 && c <= N + 1 && d <= N + 1 && big > N);
+  if (op == 0) { own_vec(0, &v); __CPROVER_assume(p <= SZ(v) && c <= N && SZ(v) + c > N); EXPECT_VIOLATION(v); tv_insert_range(&v, ELP(v, p), src, src + c); }
+  else if (op == 1) { own_vec(0, &v); __CPROVER_assume(p <= SZ(v) && d < c); EXPECT_VIOLATION(v); tv_insert_range(&v, ELP(v, p), src + c, src + d); }
+  else if (op == 2) { own_vec(0, &v); __CPROVER_assume(c == N + 1 || d < c); EXPECT_VIOLATION(v); if (c == N + 1) tv_assign_range(&v, src, src + c); else tv_assign_range(&v, src + c, src + d); }
+  else if (op == 3) { raw_vec(0, &v); __CPROVER_assume(c == N + 1 || d < c); EXPECT_VIOLATION_RAW(); if (c == N + 1) tv_ctor_range(&v, src, src + c); else tv_ctor_range(&v, src + c, src + d); }
+  else if (op == 4) { raw_vec(0, &v); EXPECT_VIOLATION_RAW(); tv_ctor_n(&v, big); }
+  else { raw_vec(0, &v); EXPECT_VIOLATION_RAW(); tv_ctor_n_x(&v, big, &x); }
+  VF_NORETURN_EXPECTED(); }
+
+/*@GROUP name=viol_v_empty_index props=C05,C02 kind=K unwind=10 unwindset=_ZN3etl6rotateIPN2vf7TrackedEEET_S4_S4_S4_:4 objbits=12@*/
+void h_viol_v_empty_index(void) { ARBV(0, v); VF_INPUT(unsigned char, op); VF_INPUT(unsigned long, i); __CPROVER_assume(op <= 6); if (op <= 4) __CPROVER_assume(SZ(v) == 0); else __CPROVER_assume(i >= SZ(v));
+  EXPECT_VIOLATION(v);
+  if (op == 0) tv_pop_back(&v); else if (op == 1) tv_back(&v); else if (op == 2) tv_cback(&v); else if (op == 3) tv_front(&v); else if (op == 4) tv_cfront(&v);
+  else if (op == 5) tv_index(&v, i); else tv_cindex(&v, i);
+  VF_NORETURN_EXPECTED(); }
+
+/*@GROUP name=viol_v_pos_ins props=C05,C02 kind=K unwind=10 unwindset=_ZN3etl6rotateIPN2vf7TrackedEEET_S4_S4_S4_:4 objbits=12 cost=2@*/
+void h_viol_v_pos_ins(void) { /* insert positions outside [begin,end] but inside the storage array */
+  ARBV(0, v); ARG(x); VF_INPUT(unsigned char, op); VF_INPUT(unsigned char, p); SRC(1); __CPROVER_assume(op <= 4 && SZ(v) < N && p > SZ(v) && p <= N); id_type xid = x.id;
+  EXPECT_VIOLATION_ARG(v, x);
+  if (op == 0) tv_insert(&v, ELP(v, p), &x); else if (op == 1) tv_insert_rv(&v, ELP(v, p), &x); else if (op == 2) tv_emplace(&v, ELP(v, p), xid); else if (op == 3) tv_insert_n(&v, ELP(v, p), 1, &x);
+  else tv_insert_range(&v, ELP(v, p), src, src + 1);
+  VF_NORETURN_EXPECTED(); }
+
+/*@GROUP name=viol_v_pos_erase props=C05,C02 kind=K unwind=10 unwindset=_ZN3etl6rotateIPN2vf7TrackedEEET_S4_S4_S4_:4 objbits=12@*/
+void h_viol_v_pos_erase(void) { /* erase positions at/behind end(), reversed iterator pairs, ranges ending behind end() */
+  ARBV(0, v); VF_INPUT_BOOL(single); VF_INPUT(unsigned char, p); VF_INPUT(unsigned char, q);
+  if (single) __CPROVER_assume(p >= SZ(v) && p <= N); else __CPROVER_assume(p <= N && q <= N && (p > q || q > SZ(v)));
+  EXPECT_VIOLATION(v);
+  if (single) tv_erase(&v, ELP(v, p)); else tv_erase_range(&v, ELP(v, p), ELP(v, q));
+  VF_NORETURN_EXPECTED(); }
+
+/*@GROUP name=viol_mo props=C05,C02 kind=K unwind=10 unwindset=_ZN3etl6rotateIPN2vf8MoveOnlyEEET_S4_S4_S4_:4 objbits=12@*/
+void h_viol_mo(void) { /* the same preconditions in the instantiation for a move-only element */
+  VF_INPUT(VM, v); own_vec_mo(0, &v); ARGM(x); VF_INPUT(unsigned char, op); VF_INPUT(unsigned char, p); __CPROVER_assume(op <= 4 && p <= SZ(v)); id_type xid = x.id;
+  if (op <= 3) __CPROVER_assume(SZ(v) == N); else __CPROVER_assume(SZ(v) == 0);
+  EXPECT_VIOLATION_ARG(v, x);
+  if (op == 0) tvm_push_back_rv(&v, &x); else if (op == 1) tvm_emplace_back(&v, xid); else if (op == 2) tvm_insert_rv(&v, ELPM(v, p), &x); else if (op == 3) tvm_emplace(&v, ELPM(v, p), xid); else tvm_pop_back(&v);
+  VF_NORETURN_EXPECTED(); }
+
+/*@GROUP name=viol_co props=C05,C02 kind=K unwind=10 unwindset=_ZN3etl6rotateIPN2vf8CopyOnlyEEET_S4_S4_S4_:4 objbits=12@*/
+void h_viol_co(void) { /* the same preconditions in the instantiation for a copy-only element (every move degrades to a copy) */
+  VF_INPUT(VC, v); own_vec_co(0, &v); VF_INPUT(TC, x); vf_out_add(&x, 5); VF_INPUT(unsigned char, op); VF_INPUT(unsigned char, p); VF_INPUT(unsigned long, c); __CPROVER_assume(op <= 4 && p <= SZ(v));
+  if (op <= 2) __CPROVER_assume(SZ(v) == N); else if (op == 3) __CPROVER_assume(c > N - SZ(v)); else __CPROVER_assume(c > N);
+  VF_KNOWN(C05_insert_n_count_wraps, op == 3 && c > ~0UL - SZ(v));
+  EXPECT_VIOLATION_ARG(v, x);
+  if (op == 0) tvc_push_back(&v, &x); else if (op == 1) tvc_push_back_rv(&v, &x); else if (op == 2) tvc_insert(&v, ELPC(v, p), &x); else if (op == 3) tvc_insert_n(&v, ELPC(v, p), c, &x); else tvc_resize_x(&v, c, &x);
+  VF_NORETURN_EXPECTED(); }
+
+/*@GROUP name=viol_i props=C05,C02 kind=K unwind=10 objbits=12@*/
+void h_viol_i(void) { /* inplace_vector<Tracked,N>: unchecked_* on a full vector, pop_back/back/front on an empty one, operator[] out of range */
+  ARBI(0, v); ARG(x); VF_INPUT(unsigned char, op); VF_INPUT(unsigned long, i); __CPROVER_assume(op <= 9); id_type xid = x.id;
+  if (op <= 2) __CPROVER_assume(ISZ(v) == N); else if (op <= 7) __CPROVER_assume(ISZ(v) == 0); else __CPROVER_assume(i >= ISZ(v));
+  EXPECT_VIOLATION_ARG(v, x);
+  if (op == 0) ti_unchecked_emplace_back(&v, xid); else if (op == 1) ti_unchecked_push_back(&v, &x); else if (op == 2) ti_unchecked_push_back_rv(&v, &x);
+  else if (op == 3) ti_pop_back(&v); else if (op == 4) ti_back(&v); else if (op == 5) ti_cback(&v); else if (op == 6) ti_front(&v); else if (op == 7) ti_cfront(&v);
+  else if (op == 8) ti_index(&v, i); else ti_cindex(&v, i);
+  VF_NORETURN_EXPECTED(); }
+
+/*@GROUP name=viol_k props=C05,C02 kind=K unwind=10 unwindset=_ZN3etl6rotateIPN2vf7TrackedEEET_S4_S4_S4_:4 objbits=12@*/
+void h_viol_k(void) { /* stack over the non-trivial static_vector: push/emplace on full, pop/top on empty */
+  ARG(x); VF_INPUT(unsigned char, op); __CPROVER_assume(op <= 5); id_type xid = x.id;
+  VF_INPUT(ST, s); own_vec(0, &s.c); if (op <= 2) __CPROVER_assume(SZ(s.c) == N); else __CPROVER_assume(SZ(s.c) == 0); EXPECT_VIOLATION_ARG(s, x);
+  if (op == 0) tk_push(&s, &x); else if (op == 1) tk_push_rv(&s, &x); else if (op == 2) tk_emplace(&s, xid); else if (op == 3) tk_pop(&s); else if (op == 4) tk_top(&s); else tk_ctop(&s);
+  VF_NORETURN_EXPECTED(); }
+
+/*@GROUP name=viol_f props=C05,C02 kind=K unwind=10 unwindset=_ZN3etl6rotateIPN2vf7TrackedEEET_S4_S4_S4_:4 objbits=12 cost=2@*/
+void h_viol_f(void) { /* flat_set: a NEW key into a full container (the container's precondition; the set and its element storage are untouched);
+  static_set(first,last) with a sized range longer than the capacity */
+  ARG(x); VF_INPUT(unsigned char, op); __CPROVER_assume(op <= 3); id_type xid = x.id; T *pos;
+  if (op <= 2) { ARBSET(0, FS, s, _container); __CPROVER_assume(SZ(s._container) == N && !has_of(view_of(&s._container), xid)); EXPECT_VIOLATION(s); vf_snap_storage_only = 1;
+    if (op == 0) tf_insert(&s, &x, &pos); else if (op == 1) tf_insert_rv(&s, &x, &pos); else tf_emplace(&s, xid, &pos); }
+  else { VF_INPUT(SS, t); raw_vec(0, &t._storage); VF_INPUT_ARR(T, big, N + 1); vf_region_set(1, big, sizeof(T), N); vf_region_live_prefix(1, N, 1); EXPECT_VIOLATION_RAW(); ts_ctor_range(&t, big, big + N + 1); }
+  VF_NORETURN_EXPECTED(); }
+
+/*@GROUP name=viol_o_x props=C05,C02 kind=F unwind=10 objbits=12@*/
+void h_viol_o_x(void) { /* optional<Tracked>: operator* (&, const&, &&, const&&) when disengaged; expected<Tracked,Tracked2>: operator* when it holds the error, error() when it holds the value */
+  VF_INPUT(unsigned char, op); __CPROVER_assume(op <= 11);
+  if (op <= 3) { ARBO(0, o); __CPROVER_assume(OIDX(o) == 0); EXPECT_VIOLATION(o);
+    if (op == 0) to_deref(&o); else if (op == 1) to_cderef(&o); else if (op == 2) to_deref_rv(&o); else to_cderef_rv(&o); }
+  else { ARBX(0, e); __CPROVER_assume(XIDX(e) == (op <= 7 ? 1 : 0)); EXPECT_VIOLATION(e);
+    if (op == 4) tx_deref(&e); else if (op == 5) tx_cderef(&e); else if (op == 6) tx_deref_rv(&e); else if (op == 7) tx_cderef_rv(&e);
+    else if (op == 8) tx_error(&e); else if (op == 9) tx_cerror(&e); else if (op == 10) tx_error_rv(&e); else tx_cerror_rv(&e); }
+  VF_NORETURN_EXPECTED(); }
+
+/*@GROUP name=viol_w props=C05,C02 kind=F unwind=10 objbits=12@*/
+void h_viol_w(void) { /* variant<int,Tracked,Tracked2>: unchecked_get<I> and operator[](index_v<I>) in all four value categories with I != index() */
+  ARBW(0, w); VF_INPUT(unsigned char, op); VF_INPUT(unsigned char, k); __CPROVER_assume(k <= 2 && k != WIDX(w) && op <= 7); EXPECT_VIOLATION(w);
+#define VF_W_CALL(I) (op == 0 ? tw_uget_##I(&w) : op == 1 ? tw_cuget_##I(&w) : op == 2 ? tw_uget_rv_##I(&w) : op == 3 ? tw_cuget_rv_##I(&w) : op == 4 ? tw_sub_##I(&w) : op == 5 ? tw_csub_##I(&w) : op == 6 ? tw_sub_rv_##I(&w) : tw_csub_rv_##I(&w))
+  if (k == 0) VF_W_CALL(0); else if (k == 1) VF_W_CALL(1); else VF_W_CALL(2);
+  VF_NORETURN_EXPECTED(); }
+
+/*@GROUP name=v_access props=C01,C03,C02 kind=K unwind=7 unwindset=_ZN3etl6rotateIPN2vf7TrackedEEET_S4_S4_S4_:4 objbits=12@*/
+void h_v_access(void) { /* valid element access of the non-trivial instantiations: addresses the element, constructs/destroys nothing, handler silent */
+  VF_INPUT(unsigned char, op); VF_INPUT(unsigned char, i); __CPROVER_assume(op <= 2);
+  if (op == 0) { ARBV(0, v); __CPROVER_assume(i < SZ(v)); view_t o = view_of(&v);
+    VF_ASSERT(tv_index(&v, i) == ELP(v, i) && tv_cindex(&v, i) == ELP(v, i) && tv_front(&v) == ELP(v, 0) && tv_cfront(&v) == ELP(v, 0) && tv_back(&v) == ELP(v, o.n - 1) && tv_cback(&v) == ELP(v, o.n - 1), "operator[], front, back address the element");
+    INVV(0, v); VF_ASSERT(view_eq(view_of(&v), o), "element access leaves the vector unchanged"); DESTROYV(0, v); }
+  else if (op == 1) { ARBI(0, v); __CPROVER_assume(i < ISZ(v)); view_t o = iview_of(&v);
+    VF_ASSERT(ti_index(&v, i) == IELP(v, i) && ti_cindex(&v, i) == IELP(v, i) && ti_front(&v) == IELP(v, 0) && ti_cfront(&v) == IELP(v, 0) && ti_back(&v) == IELP(v, o.n - 1) && ti_cback(&v) == IELP(v, o.n - 1), "operator[], front, back address the element");
+    INVI(0, v); VF_ASSERT(view_eq(iview_of(&v), o), "element access leaves the vector unchanged"); DESTROYI(0, v); }
+  else { VF_INPUT(ST, s); own_vec(0, &s.c); __CPROVER_assume(SZ(s.c) > 0); view_t o = view_of(&s.c);
+    VF_ASSERT(tk_top(&s) == ELP(s.c, o.n - 1) && tk_ctop(&s) == ELP(s.c, o.n - 1), "top() addresses the last element"); INVV(0, s.c); VF_ASSERT(view_eq(view_of(&s.c), o), "top() leaves the stack unchanged"); DESTROYK(0, s); }
+  LEAKFREE(0); VF_REACH(); }
+
+/*@COMMON@*/
+/* ---- Handle (tag 6): an ownership-transferring element.  Move construction and move assignment take the payload and mark the source -1
+ * UNCONDITIONALLY (a self-move-assignment loses the payload: MoveAssignable says nothing about t = move(t), and std::remove_if, std::rotate,
+ * vector::erase/insert never self-move), the destructor releases the payload (-2).  The oracles below are the std::vector / std::optional /
+ * std::variant semantics over VALUES: an implementation that self-moves a kept element, reads a moved-from or destroyed element, or
+ * destroys a value before reading an argument that aliases it, delivers -1 / -2 where the reference semantics has the payload. */
+typedef struct vf_Handle TH;
+typedef struct CAT(etl_static_vector_vf_Handle_, VF_N) VH;
+VF_VEC_HELPERS(_h, VH, TH, 6)
+#define ELPH(v, i) ((TH *)&(v).b0._data[i])
+#define ARBVH(k, v) VF_INPUT(VH, v); own_vec_h(k, &v)
+#define ARGH(x) VF_INPUT(TH, x); vf_out_add(&x, 6)
+#define INVH(k, v) VF_ASSERT(inv_vec_h(k, &(v)), "C03: representation invariant after the operation: live[slot] <=> slot < size")
+#define DESTROYH(k, v) do { th_dtor(&(v)); VF_ASSERT(vf_all_dead(k), "C03: nothing alive once the owner is destroyed"); } while (0)
+#define SRCH(c) VF_INPUT_ARR(TH, src, N); vf_region_set(1, src, sizeof(TH), N); vf_region_live_prefix(1, (c), 6)
+#define SRCH_INTACT(c) VF_ASSERT(vf_region_is_prefix(1, (c), 6), "C03: exactly the elements of the source range are still alive")
+static view_t sp_insert_range_h(view_t o, unsigned long p, const TH *src, unsigned long c) { view_t r; r.n = o.n + c;
+  for (int i = 0; i <= N; ++i) { unsigned long k = (unsigned long)i; r.a[i] = k < p ? o.a[i] : (k < p + c ? src[k - p].id : (k < r.n && k - c <= N ? o.a[k - c] : 0)); } return r; }
+/* [vector.erasure]: exactly the elements for which the predicate is false survive, in their original order */
+static view_t sp_erase_if(view_t o, unsigned char mask) { view_t e; e.n = 0; for (int i = 0; i <= N; ++i) e.a[i] = 0;
+  for (int i = 0; i < N; ++i) if ((unsigned long)i < o.n && !((mask >> (o.a[i] & 7)) & 1)) { e.a[e.n] = o.a[i]; ++e.n; } return e; }
+static view_t sp_erase_value(view_t o, id_type x) { view_t e; e.n = 0; for (int i = 0; i <= N; ++i) e.a[i] = 0;
+  for (int i = 0; i < N; ++i) if ((unsigned long)i < o.n && !(o.a[i] == x)) { e.a[e.n] = o.a[i]; ++e.n; } return e; }
+
+/*@GROUP name=h_erase_if props=C01,C03,C02 kind=K unwind=7 unwindset=_ZN3etl6rotateIPN2vf6HandleEEET_S4_S4_S4_:4 objbits=12 cost=2@*/
+void h_h_erase_if(void) { ARBVH(0, v); ARGH(x); VF_INPUT(unsigned char, mask); VF_INPUT_BOOL(byval); view_t o = view_of_h(&v); id_type xid = x.id;
+  view_t e = byval ? sp_erase_value(o, xid) : sp_erase_if(o, mask);
+  unsigned long r = byval ? th_erase_value(&v, &x) : th_erase_if(&v, mask);
+  INVH(0, v); LEAKFREE(1); VF_ASSERT(vf_out_live(&x, 6) && x.id == xid, "C03: the value argument is alive and unchanged");
+  VF_ASSERT(view_eq(view_of_h(&v), e) && r == o.n - e.n, "erase(c, value) / erase_if(c, pred): exactly the elements that do not match survive, with their payload, in order; returns the number removed");
+  DESTROYH(0, v); LEAKFREE(1); VF_REACH(); }
+
+/*@GROUP name=h_erase props=C01,C03,C02 kind=K unwind=7 unwindset=_ZN3etl6rotateIPN2vf6HandleEEET_S4_S4_S4_:4 objbits=12@*/
+void h_h_erase(void) { ARBVH(0, v); VF_INPUT(unsigned char, f); VF_INPUT(unsigned char, l); VF_INPUT(unsigned char, which); __CPROVER_assume(which <= 2 && f <= l && l <= SZ(v)); view_t o = view_of_h(&v);
+  if (which == 0) __CPROVER_assume(l == f + 1); else if (which == 2) __CPROVER_assume(l == o.n && f < l);
+  TH *r = ELPH(v, f); if (which == 0) r = th_erase(&v, ELPH(v, f)); else if (which == 1) r = th_erase_range(&v, ELPH(v, f), ELPH(v, l)); else th_pop_back(&v);
+  INVH(0, v); LEAKFREE(0);
+  VF_ASSERT(view_eq(view_of_h(&v), which == 2 ? sp_erase(o, o.n - 1, o.n) : sp_erase(o, f, l)) && r == ELPH(v, f), "erase(pos) / erase(first,last) / pop_back: prefix kept, suffix shifted down with its payload; returns begin()+f");
+  DESTROYH(0, v); LEAKFREE(0); VF_REACH(); }
+
+/*@GROUP name=h_insert props=C01,C03,C02 kind=K unwind=7 unwindset=_ZN3etl6rotateIPN2vf6HandleEEET_S4_S4_S4_:4 objbits=12 cost=3@*/
+void h_h_insert(void) { ARBVH(0, v); ARGH(x); VF_INPUT(unsigned char, p); VF_INPUT(unsigned char, which); __CPROVER_assume(which <= 6 && SZ(v) < N && p <= SZ(v)); view_t o = view_of_h(&v); id_type xid = x.id;
+  if (which >= 4) __CPROVER_assume(p == o.n);
+  TH *r = ELPH(v, p);
+  if (which == 0) r = th_insert(&v, ELPH(v, p), &x); else if (which == 1) r = th_insert_rv(&v, ELPH(v, p), &x); else if (which == 2) r = th_emplace(&v, ELPH(v, p), xid); else if (which == 3) r = th_emplace_copy(&v, ELPH(v, p), &x);
+  else if (which == 4) th_push_back(&v, &x); else if (which == 5) th_push_back_rv(&v, &x); else th_emplace_back(&v, xid);
+  INVH(0, v); LEAKFREE(1); VF_ASSERT(vf_out_live(&x, 6) && (which == 1 || which == 5 || x.id == xid), "C03: the argument is still alive; a copied-from argument is unchanged");
+  VF_ASSERT(view_eq(view_of_h(&v), sp_insert_n(o, p, 1, xid)) && r == ELPH(v, p), "insert/emplace(pos,x), push_back/emplace_back: n' = n+1; prefix; a'[p] = x; suffix shifted up by one with its payload; returns begin()+p");
+  DESTROYH(0, v); LEAKFREE(1); VF_REACH(); }
+
+/*@GROUP name=h_insert_n props=C01,C03,C02 kind=K unwind=7 unwindset=_ZN3etl6rotateIPN2vf6HandleEEET_S4_S4_S4_:4 objbits=12 cost=3@*/
+void h_h_insert_n(void) { ARBVH(0, v); ARGH(x); VF_INPUT(unsigned char, p); VF_INPUT(unsigned char, c); VF_INPUT_BOOL(range); __CPROVER_assume(p <= SZ(v) && c <= N && SZ(v) + c <= N); SRCH(range ? c : 0); view_t o = view_of_h(&v); id_type xid = x.id;
+  view_t e = range ? sp_insert_range_h(o, p, src, c) : sp_insert_n(o, p, c, xid);
+  TH *r = range ? th_insert_range(&v, ELPH(v, p), src, src + c) : th_insert_n(&v, ELPH(v, p), c, &x);
+  INVH(0, v); LEAKFREE(1); SRCH_INTACT(range ? c : 0); VF_ASSERT(vf_out_live(&x, 6) && x.id == xid, "C03: the copied-from argument is alive and unchanged");
+  VF_ASSERT(view_eq(view_of_h(&v), e) && r == ELPH(v, p), "insert(pos,c,x) / insert(pos,first,last): n' = n+c; prefix; the new elements; suffix shifted up by c with its payload; returns begin()+p");
+  DESTROYH(0, v); LEAKFREE(1); VF_REACH(); }
+
+/*@GROUP name=h_resize_assign props=C01,C03,C02 kind=K unwind=7 unwindset=_ZN3etl6rotateIPN2vf6HandleEEET_S4_S4_S4_:4 objbits=12 cost=3@*/
+void h_h_resize_assign(void) { ARBVH(0, v); ARGH(x); VF_INPUT(unsigned char, m); VF_INPUT(unsigned char, which); __CPROVER_assume(m <= N && which <= 3); SRCH(which == 3 ? m : 0); view_t o = view_of_h(&v); view_t z; z.n = 0; id_type xid = x.id;
+  view_t e = which == 0 ? sp_resize(o, m, 0) : which == 1 ? sp_resize(o, m, xid) : which == 2 ? sp_resize(z, m, xid) : sp_insert_range_h(z, 0, src, m);
+  if (which == 0) th_resize(&v, m); else if (which == 1) th_resize_x(&v, m, &x); else if (which == 2) th_assign_n(&v, m, &x); else th_assign_range(&v, src, src + m);
+  INVH(0, v); LEAKFREE(1); SRCH_INTACT(which == 3 ? m : 0); VF_ASSERT(vf_out_live(&x, 6) && x.id == xid, "C03: the copied-from argument is alive and unchanged");
+  VF_ASSERT(view_eq(view_of_h(&v), e), "resize(m[,x]): common prefix kept with its payload, new slots T{} / x; assign(m,x) / assign(first,last): exactly m copies / the source range");
+  DESTROYH(0, v); LEAKFREE(1); VF_REACH(); }
+
+/*@GROUP name=h_copy_move_swap props=C01,C03,C02 kind=K unwind=7 unwindset=_ZN3etl6rotateIPN2vf6HandleEEET_S4_S4_S4_:4 objbits=12 cost=3@*/
+void h_h_copy_move_swap(void) { ARBVH(1, s); VF_INPUT(VH, t); VF_INPUT(unsigned char, which); __CPROVER_assume(which <= 5); view_t os = view_of_h(&s), ot; ot.n = 0;
+  if (which == 0) { raw_vec_h(0, &t); th_copy_ctor(&t, &s); }
+  else if (which == 1) { own_vec_h(0, &t); th_copy_assign(&t, &s); }
+  else if (which == 2) { raw_vec_h(0, &t); th_move_ctor(&t, &s); }
+  else if (which == 3) { own_vec_h(0, &t); th_move_assign(&t, &s); }
+  else { own_vec_h(0, &t); ot = view_of_h(&t); if (which == 4) th_swap(&t, &s); else th_swap_free(&t, &s); }
+  INVH(0, t); INVH(1, s); LEAKFREE(0);
+  VF_ASSERT(view_eq(view_of_h(&t), os), "copy/move construction and assignment, swap: the target holds the source's elements with their payload");
+  if (which <= 1) VF_ASSERT(view_eq(view_of_h(&s), os), "copy leaves the source unchanged");
+  if (which >= 4) VF_ASSERT(view_eq(view_of_h(&s), ot), "swap: the other vector holds this one's elements with their payload");
+  DESTROYH(1, s); INVH(0, t); VF_ASSERT(view_eq(view_of_h(&t), os), "destroying the source leaves the target alone"); DESTROYH(0, t); LEAKFREE(0); VF_REACH(); }
+
+/* ---- arguments that alias an element of the vector itself ([sequence.reqmts]: a.push_back(a[k]), a.insert(p, a[k]), a.insert(p, n, a[k]),
+ * a.emplace(p, a[k]), a.resize(n, a[k]) behave as if the value had been copied before anything moves; rvalue arguments are excluded by
+ * [res.on.arguments], assign(n, a[k]) and ranges into the vector itself by their preconditions) */
+/*@GROUP name=h_alias props=C01,C03,C02 kind=K unwind=7 unwindset=_ZN3etl6rotateIPN2vf6HandleEEET_S4_S4_S4_:4 objbits=12 cost=3@*/
+void h_h_alias(void) { ARBVH(0, v); VF_INPUT(unsigned char, p); VF_INPUT(unsigned char, k); VF_INPUT(unsigned char, c); VF_INPUT(unsigned char, which); __CPROVER_assume(which <= 6 && k < SZ(v) && p <= SZ(v) && c <= N); view_t o = view_of_h(&v); id_type xid = o.a[k];
+  TH *a = ELPH(v, k), *r = ELPH(v, p); view_t e;
+  if (which <= 4) __CPROVER_assume(o.n < N); if (which <= 2) __CPROVER_assume(p == o.n);
+  if (which == 0) { th_push_back(&v, a); e = sp_insert_n(o, o.n, 1, xid); } else if (which == 1) { th_push_back_lv(&v, a); e = sp_insert_n(o, o.n, 1, xid); } else if (which == 2) { th_emplace_back_copy(&v, a); e = sp_insert_n(o, o.n, 1, xid); }
+  else if (which == 3) { r = th_insert(&v, ELPH(v, p), a); e = sp_insert_n(o, p, 1, xid); } else if (which == 4) { r = th_emplace_copy(&v, ELPH(v, p), a); e = sp_insert_n(o, p, 1, xid); }
+  else if (which == 5) { __CPROVER_assume(o.n + c <= N); r = th_insert_n(&v, ELPH(v, p), c, a); e = sp_insert_n(o, p, c, xid); }
+  else { __CPROVER_assume(p == o.n); th_resize_x(&v, c, a); e = sp_resize(o, c, xid); r = ELPH(v, p); }
+  INVH(0, v); LEAKFREE(0);
+  VF_ASSERT(view_eq(view_of_h(&v), e) && r == ELPH(v, p), "an argument that refers to an element of the vector itself is copied before any element moves: same result as with a copy of a[k]");
+  DESTROYH(0, v); LEAKFREE(0); VF_REACH(); }
+
+/*@COMMON@*/
+/* ---- optional<Handle>, variant<int,Handle,Tracked2>, expected<Handle,Tracked2>: C07 value semantics with an element whose destructor
+ * releases the payload and whose move marks the source; value assignment also from a reference to the OWN contained value
+ * ([optional.assign], [variant.assign]: an engaged optional / a variant holding T_j ASSIGNS forward<U>(v) to the contained value, so
+ * `o = *o` and `w = get<j>(w)` are a copy self-assignment of the value and leave it unchanged; an implementation that destroys the value
+ * first reads a dead object).  Rvalue self-references are excluded ([res.on.arguments]). */
+typedef struct etl_optional_vf_Handle OH;
+typedef struct etl_variant_int_vf_Handle_vf_Tracked2 WH;
+typedef struct etl_expected_vf_Handle_vf_Tracked2 XH;
+static oview_t oview_of_h(const OH *o) { oview_t w; w.has = OIDX(*o) == 1; w.id = w.has ? OEL(*o)->id : 0; return w; }
+static void own_opt_h(int k, OH *o) { vf_region_set(k, OEL(*o), sizeof(TH), 1); __CPROVER_assume(OIDX(*o) <= 1); vf_region_live_prefix(k, OIDX(*o) == 1, 6); }
+static _Bool inv_opt_h(int k, const OH *o) { return OIDX(*o) <= 1 && vf_region_is_prefix(k, OIDX(*o) == 1, 6); }
+#define ARBOH(k, o) VF_INPUT(OH, o); own_opt_h(k, &o)
+#define INVOH(k, o) VF_ASSERT(inv_opt_h(k, &(o)), "C03: representation invariant after the operation: the value slot is alive <=> has_value()")
+#define DESTROYOH(k, o) do { tho_dtor(&(o)); VF_ASSERT(vf_all_dead(k), "C03: nothing alive once the owner is destroyed"); } while (0)
+/* variant<int,Handle,Tracked2>: slot state 0 / 6 / 2 for index 0 / 1 / 2; expected<Handle,Tracked2>: 6 for the value, 2 for the error */
+static unsigned char wh_tag(unsigned idx) { return idx == 0 ? 0 : (idx == 1 ? 6 : 2); }
+static wview_t wview_of_h(const WH *w) { wview_t v; v.idx = WIDX(*w); v.val = v.idx == 0 ? WI(*w) : (v.idx == 1 ? W1(*w)->id : W2(*w)->id); return v; }
+static void own_var_h(int k, WH *w) { vf_region_set(k, &w->_union, sizeof w->_union, 1); __CPROVER_assume(WIDX(*w) <= 2); vf_region_live_prefix(k, 0, 0); vf_live[k][0] = wh_tag(WIDX(*w)); }
+static _Bool inv_var_h(int k, const WH *w) { return WIDX(*w) <= 2 && vf_live[k][0] == wh_tag(WIDX(*w)) && vf_live[k][1] == 0 && vf_live[k][2] == 0 && vf_live[k][3] == 0; }
+#define ARBWH(k, w) VF_INPUT(WH, w); own_var_h(k, &w)
+#define INVWH(k, w) VF_ASSERT(inv_var_h(k, &(w)), "C03: representation invariant after the operation: exactly the alternative selected by index() is alive")
+#define DESTROYWH(k, w) do { twh_dtor(&(w)); VF_ASSERT(vf_all_dead(k), "C03: nothing alive once the owner is destroyed"); } while (0)
+static wview_t xview_of_h(const XH *x) { wview_t v; v.idx = XIDX(*x); v.val = v.idx == 0 ? XV(*x)->id : XE(*x)->id; return v; }
+static void own_exp_h(int k, XH *x) { vf_region_set(k, &x->_u._union, sizeof x->_u._union, 1); __CPROVER_assume(XIDX(*x) <= 1); vf_region_live_prefix(k, 0, 0); vf_live[k][0] = XIDX(*x) == 0 ? 6 : 2; }
+static _Bool inv_exp_h(int k, const XH *x) { return XIDX(*x) <= 1 && vf_live[k][0] == (XIDX(*x) == 0 ? 6 : 2) && vf_live[k][1] == 0 && vf_live[k][2] == 0 && vf_live[k][3] == 0; }
+#define ARBXH(k, x) VF_INPUT(XH, x); own_exp_h(k, &x)
+#define INVXH(k, x) VF_ASSERT(inv_exp_h(k, &(x)), "C03: representation invariant after the operation: the value is alive <=> has_value(), else exactly the error is alive")
+#define DESTROYXH(k, x) do { txh_dtor(&(x)); VF_ASSERT(vf_all_dead(k), "C03: nothing alive once the owner is destroyed"); } while (0)
+
+/*@GROUP name=ho_assign_value props=C07,C03,C02 kind=F unwind=7 objbits=12@*/
+void h_ho_assign_value(void) { ARBOH(0, o); ARGH(x); VF_INPUT(unsigned char, which); VF_INPUT_BOOL(alias); __CPROVER_assume(which <= 3);
+  if (alias || which == 3) __CPROVER_assume(OIDX(o) == 1 && which != 2);
+  TH *px = (alias || which == 3) ? OEL(o) : &x; id_type xid = px->id, x0 = x.id;
+  if (which == 0) tho_assign_value(&o, px); else if (which == 1) tho_assign_value_lv(&o, px); else if (which == 2) tho_assign_value_rv(&o, px); else tho_assign_deref(&o);
+  INVOH(0, o); LEAKFREE(1); VF_ASSERT(vf_out_live(&x, 6) && (which == 2 || x.id == x0), "C03: the argument is still alive; a copied-from argument is unchanged");
+  oview_t e; e.has = 1; e.id = xid;
+  VF_ASSERT(oview_eq(oview_of_h(&o), e), "optional = value (U = T const&, T&, T&&; also a reference to the own contained value, `o = *o`): engaged and holds the value the argument had");
+  DESTROYOH(0, o); LEAKFREE(1); VF_REACH(); }
+
+/*@GROUP name=ho_copy_move_swap props=C07,C03,C02 kind=F unwind=7 objbits=12@*/
+void h_ho_copy_move_swap(void) { ARBOH(0, t); ARBOH(1, s); VF_INPUT(unsigned char, which); VF_INPUT(id_type, i); __CPROVER_assume(which <= 4); oview_t os = oview_of_h(&s), ot = oview_of_h(&t);
+  if (which == 0) tho_copy_assign(&t, &s); else if (which == 1) tho_move_assign(&t, &s); else if (which == 2) tho_swap(&t, &s); else if (which == 3) tho_copy_assign(&t, &t); else { TH *r = tho_emplace(&t, i); VF_ASSERT(r == OEL(t), "emplace returns the contained value"); }
+  INVOH(0, t); INVOH(1, s); LEAKFREE(0);
+  oview_t ei; ei.has = 1; ei.id = i;
+  VF_ASSERT(oview_eq(oview_of_h(&t), which <= 2 ? os : (which == 3 ? ot : ei)), "copy/move assignment, swap: the target holds the source's state and payload; copy self-assignment keeps it; emplace(i) holds i");
+  VF_ASSERT(which == 2 || (oview_of_h(&s).has == os.has && (which == 1 || oview_eq(oview_of_h(&s), os))), "the source keeps its engaged state (moved-from, not destroyed); a copied-from source is unchanged");
+  if (which == 2) VF_ASSERT(oview_eq(oview_of_h(&s), ot), "swap: the source holds the target's old state and payload");
+  DESTROYOH(1, s); INVOH(0, t); DESTROYOH(0, t); LEAKFREE(0); VF_REACH(); }
+
+/*@GROUP name=hw_assign_value props=C07,C03,C02 kind=F unwind=7 objbits=12 cost=2@*/
+void h_hw_assign_value(void) { ARBWH(0, w); ARGH(x); ARG2(y); VF_INPUT(int, i); VF_INPUT(unsigned char, which); VF_INPUT_BOOL(alias); __CPROVER_assume(which <= 4);
+  /* which: 0 int const&, 1 Handle const&, 2 Handle&, 3 Handle&&, 4 Tracked2 const&; alias: the argument is the variant's own active alternative */
+  unsigned tgt = which == 0 ? 0 : (which <= 3 ? 1 : 2);
+  if (alias) __CPROVER_assume(which != 3 && WIDX(w) == tgt);
+  VF_KNOWN(C07_variant_assign_own_alternative, alias && tgt != 0);
+  int *pi = alias ? &WI(w) : &i; TH *px = alias ? W1(w) : &x; T2 *py = alias ? W2(w) : &y;
+  wview_t e; e.idx = tgt; e.val = tgt == 0 ? *pi : (tgt == 1 ? px->id : py->id); id_type x0 = x.id, y0 = y.id;
+  if (which == 0) twh_assign_int(&w, pi); else if (which == 1) twh_assign_h(&w, px); else if (which == 2) twh_assign_h_lv(&w, px); else if (which == 3) twh_assign_h_rv(&w, px); else twh_assign_t2(&w, py);
+  INVWH(0, w); LEAKFREE(2); VF_ASSERT(vf_out_live(&x, 6) && vf_out_live(&y, 2) && (which == 3 || x.id == x0) && y.id == y0, "C03: the arguments are still alive; copied-from arguments are unchanged");
+  VF_ASSERT(wview_eq(wview_of_h(&w), e), "variant = value from every alternative (also a reference to the own active alternative, `w = get<j>(w)`): holds alternative j with the value the argument had");
+  DESTROYWH(0, w); LEAKFREE(2); VF_REACH(); }
+
+/*@GROUP name=hw_copy_move_swap props=C07,C03,C02 kind=F unwind=7 objbits=12 cost=2@*/
+void h_hw_copy_move_swap(void) { ARBWH(0, t); ARBWH(1, s); VF_INPUT(unsigned char, which); __CPROVER_assume(which <= 3); wview_t os = wview_of_h(&s), ot = wview_of_h(&t);
+  if (which == 0) twh_copy_assign(&t, &s); else if (which == 1) twh_move_assign(&t, &s); else if (which == 2) twh_swap(&t, &s); else twh_copy_assign(&t, &t);
+  INVWH(0, t); INVWH(1, s); LEAKFREE(0);
+  VF_ASSERT(wview_eq(wview_of_h(&t), which <= 2 ? os : ot), "copy/move assignment and swap over all nine index pairs: the target holds the source's alternative and payload; copy self-assignment keeps it");
+  VF_ASSERT(which == 2 || (wview_of_h(&s).idx == os.idx && (which == 1 || wview_eq(wview_of_h(&s), os))), "the source keeps its alternative (moved-from, not destroyed); a copied-from source is unchanged");
+  if (which == 2) VF_ASSERT(wview_eq(wview_of_h(&s), ot), "swap: the source holds the target's old alternative and payload");
+  DESTROYWH(1, s); INVWH(0, t); DESTROYWH(0, t); LEAKFREE(0); VF_REACH(); }
+
+/*@GROUP name=hx_copy_move_swap props=C07,C03,C02 kind=F unwind=7 objbits=12 cost=2@*/
+void h_hx_copy_move_swap(void) { ARBXH(0, t); ARBXH(1, s); VF_INPUT(unsigned char, which); VF_INPUT(id_type, i); __CPROVER_assume(which <= 4); wview_t os = xview_of_h(&s), ot = xview_of_h(&t);
+  if (which == 0) txh_copy_assign(&t, &s); else if (which == 1) txh_move_assign(&t, &s); else if (which == 2) txh_swap(&t, &s); else if (which == 3) txh_copy_assign(&t, &t); else { TH *r = txh_emplace(&t, i); VF_ASSERT(r == XV(t), "emplace returns the value"); }
+  INVXH(0, t); INVXH(1, s); LEAKFREE(0);
+  wview_t ei; ei.idx = 0; ei.val = i;
+  VF_ASSERT(wview_eq(xview_of_h(&t), which <= 2 ? os : (which == 3 ? ot : ei)), "copy/move assignment and swap over all four (value, error) pairs: the target holds the source's state and payload; copy self-assignment keeps it; emplace(i) holds the value i");
+  VF_ASSERT(which == 2 || (xview_of_h(&s).idx == os.idx && (which == 1 || wview_eq(xview_of_h(&s), os))), "the source keeps its state (moved-from, not destroyed); a copied-from source is unchanged");
+  if (which == 2) VF_ASSERT(wview_eq(xview_of_h(&s), ot), "swap: the source holds the target's old state and payload");
+  DESTROYXH(1, s); INVXH(0, t); DESTROYXH(0, t); LEAKFREE(0); VF_REACH(); }
+
+/*@GROUP name=ik_alias props=C01,C03,C02 kind=K unwind=7 unwindset=_ZN3etl6rotateIPN2vf7TrackedEEET_S4_S4_S4_:4 objbits=12 cost=2@*/
+void h_ik_alias(void) { /* inplace_vector / stack: push_back(v[k]), emplace_back(v[k]), push(top()) with the argument referring to an element of the container itself */
+  VF_INPUT(unsigned char, which); VF_INPUT(unsigned char, k); __CPROVER_assume(which <= 6);
+  if (which <= 3) { ARBI(0, v); __CPROVER_assume(k < ISZ(v)); view_t o = iview_of(&v); id_type xid = o.a[k]; T *a = IELP(v, k); if (which >= 2) __CPROVER_assume(o.n < N);
+    T *r = which == 0 ? ti_try_push_back(&v, a) : which == 1 ? ti_try_emplace_back_copy(&v, a) : which == 2 ? ti_unchecked_push_back(&v, a) : ti_unchecked_emplace_back_copy(&v, a);
+    INVI(0, v);
+    if (o.n == N) VF_ASSERT(r == 0 && view_eq(iview_of(&v), o), "try_*_back(v[k]) on a full vector: returns nullptr, contents unchanged");
+    else VF_ASSERT(r == IELP(v, o.n) && view_eq(iview_of(&v), sp_insert_n(o, o.n, 1, xid)), "*_back(v[k]): n' = n+1, prefix (including v[k]) unchanged, a'[n] = old v[k]");
+    DESTROYI(0, v); }
+  else { VF_INPUT(ST, s); own_vec(0, &s.c); __CPROVER_assume(SZ(s.c) > 0 && SZ(s.c) < N && k < SZ(s.c)); view_t o = view_of(&s.c); T *a = which == 6 ? ELP(s.c, k) : tk_top(&s); id_type xid = a->id;
+    if (which == 4) tk_push(&s, a); else tk_emplace_copy(&s, a);
+    INVV(0, s.c); VF_ASSERT(view_eq(view_of(&s.c), sp_insert_n(o, o.n, 1, xid)), "push(top()) / emplace(c[k]): the new top is a copy of the old element, everything below unchanged"); DESTROYK(0, s); }
+  LEAKFREE(0); VF_REACH(); }
+
+/*@GROUP name=ha_moving_algos props=C06,C03,C02 kind=B bound=len<=VF_N unwind=7 unwindset=_ZN3etl6rotateIPN2vf6HandleEEET_S4_S4_S4_:4 objbits=12 cost=3@*/
+void h_ha_moving_algos(void) { /* [alg.remove] [alg.unique] [alg.rotate] [alg.shift] [alg.move] over Handles: the kept / shifted elements arrive with their payload (no self-move, no read
+  of a moved-from element); elements behind the returned end are valid but unspecified (alive); nothing is constructed or destroyed */
+  VF_INPUT_ARR(TH, a, N); VF_INPUT(unsigned char, c); VF_INPUT(unsigned char, which); VF_INPUT(unsigned char, m); VF_INPUT(unsigned char, d); VF_INPUT(unsigned char, mask); ARGH(x);
+  __CPROVER_assume(c <= N && which <= 7 && m <= c && d <= c); vf_region_set(0, a, sizeof(TH), N); vf_region_live_prefix(0, c, 6);
+  view_t o; o.n = c; for (int i = 0; i <= N; ++i) o.a[i] = i < c ? a[i < N ? i : 0].id : 0; id_type xid = x.id; unsigned long k = c; view_t e = o;
+  TH *r = a;
+  if (which == 0) { e = sp_erase_value(o, xid); k = e.n; r = tha_remove(a, a + c, &x); }
+  else if (which == 1) { e = sp_erase_if(o, mask); k = e.n; r = tha_remove_if(a, a + c, mask); }
+  else if (which == 2) { e.n = 0; for (int i = 0; i < N; ++i) if (i < c && (e.n == 0 || !(e.a[e.n - 1] == o.a[i]))) { e.a[e.n] = o.a[i]; ++e.n; } k = e.n; r = tha_unique(a, a + c); }
+  else if (which == 3) { for (int i = 0; i < N; ++i) if (i < c) e.a[i] = o.a[(i + m) % c]; k = c - m; r = tha_rotate(a, a + m, a + c); if (m == 0) k = c; else if (m == c) k = 0; }
+  else if (which == 4) { /* shift_left(m): a'[i] = a[i+m] for i < c-m; returns first + (c-m); m >= c: no effect, returns first */
+    if (m < c) { e.n = c - m; for (int i = 0; i < N; ++i) if (i + m < c) e.a[i] = o.a[i + m]; k = c - m; } else k = 0;
+    r = tha_shift_left(a, a + c, m); }
+  else if (which == 5) { /* shift_right(m): a'[m+i] = a[i] for i < c-m; returns first + m; m >= c: no effect, returns last */
+    r = tha_shift_right(a, a + c, m); k = m < c ? m : c;
+    for (int i = 0; i < N; ++i) if (m < c && i + m < c) VF_ASSERT(a[i + m].id == o.a[i], "shift_right(n): the element at i arrives at i+n with its payload");
+    if (m >= c || m == 0) for (int i = 0; i < N; ++i) if (i < c) VF_ASSERT(a[i].id == o.a[i], "shift_right(0) and shift_right(n >= length) have no effect");
+    e.n = 0; }
+  else if (which == 6) { /* move(first+m, last, first+d) with d < m (d_first not in [first,last)): a'[d+i] = a[m+i] */
+    __CPROVER_assume(d < m); r = tha_move(a + m, a + c, a + d); k = d + (c - m); e.n = 0;
+    for (int i = 0; i < N; ++i) if (m + i < c) VF_ASSERT(a[d + i].id == o.a[m + i], "move to an overlapping destination in front: every element arrives with its payload"); }
+  else { /* move_backward(first, first+m, first+d) with d > m (d_last not in (first,last]): a'[d-m+i] = a[i] */
+    __CPROVER_assume(d > m); r = tha_move_backward(a, a + m, a + d); k = d - m; e.n = 0;
+    for (int i = 0; i < N; ++i) if (i < m) VF_ASSERT(a[d - m + i].id == o.a[i], "move_backward to an overlapping destination behind: every element arrives with its payload"); }
+  VF_ASSERT(r == a + k, "returned iterator: the new logical end (remove, unique, shift_left), first + (last - middle) (rotate), first + n (shift_right), the end of the destination (move) / its begin (move_backward)");
+  for (int i = 0; i < N; ++i) if ((unsigned long)i < e.n) VF_ASSERT(a[i].id == e.a[i], "the kept / rotated / shifted elements, in order, with their payload");
+  VF_ASSERT(vf_region_is_prefix(0, c, 6), "C03: exactly the elements of the range are still alive"); LEAKFREE(1); VF_ASSERT(vf_out_live(&x, 6) && x.id == xid, "C03: the value argument is alive and unchanged"); VF_REACH(); }
